@@ -417,6 +417,10 @@ func (cx *Ctx) runC18() {
 	passCompared := 0
 	var samples []any
 	for hi, jr := range hres {
+		if jr.Timeout {
+			cx.trouble("a history job was silent for %v: stuck outside the simulator's control (unowned blocking operation inside the library?)", cx.simFresh.Timeout)
+			continue
+		}
 		if jr.Res == nil || jr.Res.Error != "" {
 			if jr.Res != nil {
 				cx.trouble("history job: %s", jr.Res.Error)
